@@ -6,7 +6,11 @@ Generated space: every placement of <= 3 accesses (reads / writes) of ONE object
               called from A / C), IO / II (output / input of a sub-entity instance), CIO / AIO (inline instance
               created inside C / inside the always block of A)
   parts       whole object, low slice, high slice, single bit (array kind: element 0, element 1, slice of element 0)
+              MO (outputs of ONE multi-output instance, in keyword order, on overlapping / identical / disjoint parts)
   kinds       Signal, Port.input, Port.output, Port.inout, Variable, Temporary (explicit intermediate), Signal[Array]
+  forms       writes as `<<=` / `@=`, `.next` / `.value`, push `^=`, `.push`
+  API         every context through std.sequential / std.concurrent or the core cohdl.sequential_context /
+              cohdl.concurrent_context (without / with cohdl.reset_pushed())
 rendered to real design files and compiled by the compiler of the current tree.
 
 Checks per design
@@ -34,12 +38,16 @@ RW_PLACEMENTS = ["A", "B", "C", "AA", "BA", "AF", "CF"]
 FIXED_PLACEMENTS = {"AE": "r", "IO": "w", "II": "r", "CIO": "w", "AIO": "w"}
 VEC_PARTS = ["w", "lo", "hi", "b0"]
 ARR_PARTS = ["e0", "e1", "e0lo"]
-PART_WIDTH = {"w": 4, "lo": 2, "hi": 2, "b0": 1, "e0": 4, "e1": 4, "e0lo": 2}
-PART_SUFFIX = {"w": "", "lo": "[1:0]", "hi": "[3:2]", "b0": "[0]", "e0": "[0]", "e1": "[1]", "e0lo": "[0][1:0]"}
+PART_WIDTH = {"w": 4, "lo": 2, "hi": 2, "mid": 2, "b0": 1, "e0": 4, "e1": 4, "e0lo": 2}
+PART_SUFFIX = {"w": "", "lo": "[1:0]", "hi": "[3:2]", "mid": "[2:1]", "b0": "[0]", "e0": "[0]", "e1": "[1]", "e0lo": "[0][1:0]"}
 # bit positions of the root that a part covers (for the array: element index * 4 + bit)
-PART_BITS = {"w": {0, 1, 2, 3}, "lo": {0, 1}, "hi": {2, 3}, "b0": {0},
+PART_BITS = {"w": {0, 1, 2, 3}, "lo": {0, 1}, "hi": {2, 3}, "mid": {1, 2}, "b0": {0},
              "e0": {0, 1, 2, 3}, "e1": {4, 5, 6, 7}, "e0lo": {0, 1}}
 WIDTH_SUFFIX = {4: "", 2: "[1:0]", 1: "[0]"}
+
+
+# parts used as actuals of the outputs of ONE multi-output instance (placement MO; keyword order = order in the design)
+MO_PARTS = {"arr": ["e0", "e1", "e0lo"], None: ["w", "lo", "hi", "mid", "b0"]}
 
 
 def parts_of(kind):
@@ -162,8 +170,17 @@ def stmt_of(kind, k, acc):
 
 
 def render(kind, accs, api=DEFAULT_API):
-    port_decl, local_decl, _ = DECL[kind]
-    lines = [HEADER.rstrip("\n")]
+    port_decl, local_decl, ref = DECL[kind]
+    head = HEADER.rstrip("\n")
+    mo = [(k, a) for k, a in enumerate(accs) if a[0] == "MO"]
+    if mo:
+        # a sub-entity with one output per MO access, in the order of the accesses
+        sub = ["class SubM(cohdl.Entity):", "    x = Port.input(BitVector[4])"]
+        sub += [f"    o{j} = Port.output({'Bit' if PART_WIDTH[a[1]] == 1 else 'BitVector[%d]' % PART_WIDTH[a[1]]})" for j, (_, a) in enumerate(mo)]
+        sub += ["", "    def architecture(self):", "        @std.concurrent", "        def logic():"]
+        sub += [f"            self.o{j} <<= ~self.x{WIDTH_SUFFIX[PART_WIDTH[a[1]]]}" for j, (_, a) in enumerate(mo)]
+        head = head.replace("class W(cohdl.Entity):", "\n".join(sub) + "\n\n\nclass W(cohdl.Entity):")
+    lines = [head]
     if port_decl:
         lines.append("    " + port_decl)
     lines += ["", "    def architecture(self):"]
@@ -172,8 +189,12 @@ def render(kind, accs, api=DEFAULT_API):
         lines.append(ind + local_decl)
     body = {"A": [], "B": [], "C": [], "AA": [], "BA": []}
     nonlocal_in = set()
+    if mo:
+        lines.append(ind + "SubM(x=self.av, " + ", ".join(f"o{j}={ref}{PART_SUFFIX[a[1]]}" for j, (_, a) in enumerate(mo)) + ")")
     for k, acc in enumerate(accs):
         pl = acc[0]
+        if pl == "MO":
+            continue
         st, nl = stmt_of(kind, k, acc)
         if pl in ("IO", "II"):
             lines.append(ind + st)
@@ -235,8 +256,13 @@ def abstract(kind, accs, api=DEFAULT_API):
     body = {"A": [], "B": [], "C": []}
     pushed = {"A": False, "B": False, "C": False}
     insts = []
+    n_mo = sum(1 for pl, _, _ in accs if pl == "MO")
+    if n_mo:
+        insts.append("inst i1" + " o0" * n_mo)
     for k, (pl, part, rw) in enumerate(accs):
         sink = 2 + k
+        if pl == "MO":
+            continue
         if pl in ("IO", "CIO", "AIO"):
             insts.append("inst i1 o0")
         elif pl == "II":
@@ -267,14 +293,22 @@ def spec_must_reject(kind, accs):
     Every assignment form (`<<=`, `.next`, `^=`, `.push`) drives its target."""
     if kind in ("var", "tmp"):
         users = {CTX_OF[pl] for pl, _, _ in accs if pl in CTX_OF}
-        return "variable or intermediate value used by more than one context" if len(users) > 1 else None
+        if len(users) > 1:
+            return "variable or intermediate value used by more than one context"
+        if kind == "var":
+            return None
     writers = set()
     for k, (pl, part, rw) in enumerate(accs):
         if not is_write(rw):
             continue
         if kind == "pin":
             return "input port written"
-        writers.add(CTX_OF[pl] if pl in CTX_OF else ("inst", k))
+        writers.add(CTX_OF[pl] if pl in CTX_OF else ("inst", "MO" if pl == "MO" else k))
+    mo = [part for pl, part, _ in accs if pl == "MO"]
+    if any(PART_BITS[a] & PART_BITS[b] for i, a in enumerate(mo) for b in mo[i + 1:]):
+        # decided per bit: two outputs of one instance on disjoint parts drive every bit once (cohdl rejects that
+        # too - over-rejection); on overlapping / identical parts some bit has two instance outputs as drivers
+        return "a part of the signal is driven from more than one instance output"
     if len(writers) > 1:
         return "signal or port (or a slice / element of it) driven from more than one context or instance output"
     return None
@@ -380,6 +414,39 @@ def base_name(t):
     raise InfraError(f"unexpected assignment target {t!r}")
 
 
+def actual_path(t):
+    """(base name, [(low, high) per selector level]) of a port-map actual; None when a selector is not a constant"""
+    sel = []
+    while True:
+        if t[0] == "name":
+            return t[1].lower(), sel[::-1]
+        if t[0] == "slice":
+            a, b = t[2], t[4]
+            if a[0] != "int" or b[0] != "int":
+                return None
+            sel.append((min(a[1], b[1]), max(a[1], b[1])))
+            t = t[1]
+        elif t[0] == "index":
+            if t[2][0] != "int":
+                return None
+            sel.append((t[2][1], t[2][1]))
+            t = t[1]
+        elif t[0] == "call" and len(t[2]) == 1:
+            if t[2][0][0] != "int":
+                return None
+            sel.append((t[2][0][1], t[2][0][1]))
+            return t[1].lower(), sel[::-1]
+        else:
+            return None
+
+
+def paths_overlap(p, q):
+    """do two actuals of the same base share a bit?  (a shorter selector list is a prefix: it covers everything below)"""
+    if p is None or q is None:
+        return True
+    return all(a[0] <= b[1] and b[0] <= a[1] for a, b in zip(p, q))
+
+
 def names_in(node, out):
     """every identifier referenced in an expression / statement tree"""
     if isinstance(node, tuple):
@@ -462,12 +529,14 @@ def certificate(text, entity="W"):
             if sub is None:
                 raise InfraError(f"instantiated entity {st['entity']} not in the emitted text")
             dirs = {p["name"].lower(): p["dir"] for p in sub["ports"]}
-            tg, nm = set(), set()
+            tg, nm, outs = set(), set(), []
             for formal, actual in st["ports"]:
                 names_in(actual, nm)
                 if dirs.get(formal.lower()) == "out":
                     tg.add(base_name(actual).lower())
-            units.append({"kind": "instance", "label": st["label"], "targets": tg, "names": nm, "vars": set()})
+                    ap = actual_path(actual)
+                    outs.append((formal, base_name(actual).lower(), ap[1] if ap else None))
+            units.append({"kind": "instance", "label": st["label"], "targets": tg, "names": nm, "vars": set(), "outs": outs})
         elif k == "assert":
             continue
         else:
@@ -484,6 +553,13 @@ def certificate(text, entity="W"):
         for n in u["names"] | u["targets"]:
             if n in all_vars and n not in u["vars"] and n not in arch_names:
                 problems.append(("variable-outside-process", n, f"process variable {n} is referenced by {u['kind']} {u['label']}"))
+    # drivers PER BIT inside one port map: every output of an instance is a driver of the bits of its actual
+    for u in units:
+        outs = u.get("outs", [])
+        for i, (f1, b1, p1) in enumerate(outs):
+            for f2, b2, p2 in outs[i + 1:]:
+                if b1 == b2 and paths_overlap(p1, p2):
+                    problems.append(("multiple-drivers", b1, f"bits of signal {b1} are driven by two outputs ({f1}, {f2}) of instance {u['label']}"))
     for t, us in sorted(drv.items()):
         if len(us) > 1:
             desc = ", ".join(f"{units[i]['kind']} {units[i]['label']}" for i in us)
@@ -510,7 +586,9 @@ PAIR_COMBOS = {"arr": [("e0", "e1"), ("e0", "e0"), ("e0lo", "e0"), ("e1", "e0lo"
 
 
 def canon(accs):
-    return tuple(sorted(accs))
+    """accesses are an unordered multiset, except the outputs of the multi-output instance (their order is the
+    keyword order of the instantiation, which the instance loop of the compiler follows)"""
+    return tuple(sorted(a for a in accs if a[0] != "MO")) + tuple(a for a in accs if a[0] == "MO")
 
 
 def contexts_of(accs):
@@ -572,12 +650,35 @@ def core_designs(quick=True):
             for accs in placement_pairs(kind, writers, pa, pb, both_orders=not quick):
                 out += [(kind, accs, v) for v in api_variants(accs, full=not quick and kind == "sig" and ci < 2)]
         if quick:
-            std_combos = combos[:3] if kind == "sig" else (combos[:1] if kind in ("pin", "pinout", "tmp") else combos[1:2])
+            std_combos = combos[:2] if kind == "sig" else ([] if kind == "pin" else (combos[:1] if kind in ("pinout", "tmp") else combos[1:2]))
             for pa, pb in std_combos:
                 for accs in placement_pairs(kind, T, pa, pb, both_orders=False):
                     if kind not in ("var", "tmp") and not any(is_write(rw) for _, _, rw in accs):
                         continue  # two readers of a signal: covered by the sampled part
                     out.append((kind, accs, DEFAULT_API))
+    return out
+
+
+def multi_output_designs(quick=True):
+    """ONE instance with two / three outputs connected to parts of one root (whole, disjoint, overlapping, identical
+    slices, single bit | array elements) in EVERY keyword order, alone and together with one more writer / reader"""
+    out = []
+    for kind in KINDS:
+        P = MO_PARTS.get(kind, MO_PARTS[None])
+        pairs = [(("MO", a, "w"), ("MO", b, "w")) for a in P for b in P]
+        out += [(kind, p, DEFAULT_API) for p in pairs]
+        if kind == "var":
+            continue
+        if kind in ("sig", "arr") or not quick:
+            out += [(kind, (("MO", a, "w"), ("MO", b, "w"), ("MO", c, "w")), DEFAULT_API) for a in P for b in P for c in P]
+        if kind in ("sig", "pout", "arr") or not quick:
+            q = P[1] if kind != "arr" else P[0]
+            others = [("A", q, "wa"), ("C", q, "wa"), ("A", q, "wp"), ("IO", q, "w"), ("C", q, "r")]
+            if quick:
+                others = others[:3] if kind == "sig" else others[1:2]
+            for o in others:
+                for p in pairs:
+                    out += [(kind, (o,) + p, v) for v in (api_variants((o,)) if not quick else [DEFAULT_API])]
     return out
 
 
@@ -662,7 +763,9 @@ def violations_of(rec):
 
 
 def sig_of(cls, kind, accs, api=DEFAULT_API):
-    return f"c07:{cls}:{kind}:" + "+".join(f"{pl}/{rw}" for pl, _, rw in accs) + ("" if api == DEFAULT_API else "@" + api)
+    # parts matter for the outputs of one instance (overlap decides), not for the other placements
+    return f"c07:{cls}:{kind}:" + "+".join((f"MO[{part}]" if pl == "MO" else f"{pl}/{rw}") for pl, part, rw in accs) + \
+        ("" if api == DEFAULT_API else "@" + api)
 
 
 def shrink(rec, cls):
@@ -693,12 +796,14 @@ def run(ctx: Ctx):
                 "helpers, instance output / input, inline instances) x part (whole, 2 disjoint slices, bit | array elements) "
                 "x read / write form (<<= | @=, .next | .value, ^=, .push) x declaration of each context (std.sequential / "
                 "std.concurrent, core cohdl.sequential_context / concurrent_context without / with reset_pushed()); core set "
-                "(all singles, writer pairs under every API variant, pairs on 1-4 part combinations) always, then "
+                "(all singles, writer pairs under every API variant, pairs on 1-4 part combinations, one instance with 2-3 "
+                "outputs on whole / disjoint / overlapping / identical parts of one root in every keyword order, alone and with "
+                "another writer) always, then "
                 "quick: random pairs+triples over all forms and APIs / thorough: all pairs and all triples in canonical forms; "
                 "non-trivial = >= 2 accesses with >= 1 write; distinct = distinct (kind, placement multiset, API variant)")
-    designs = core_designs(ctx.quick)
+    designs = core_designs(ctx.quick) + multi_output_designs(ctx.quick)
     if ctx.quick:
-        designs += [random_design(rng, 2) for _ in range(450)] + [random_design(rng, 3) for _ in range(450)]
+        designs += [random_design(rng, 2) for _ in range(250)] + [random_design(rng, 3) for _ in range(250)]
     else:
         designs += list(all_pairs()) + list(all_triples())
     seen, uniq = set(), []
